@@ -43,6 +43,9 @@ def wf_entry(e):
 class ValidateTraitComplex(CContract):
     qualname = "validate_trait_complex"
     properties = ("C03", "C01", "C19")
+    # differential oracle (compiled path vs the handler's Python validate, flat and nested compounds): asked for a failing
+    # input when the verifier's own model does not replay, and when an obligation stays undecided
+    undecided_probe = dict(harness="pyvalidators", family="nested_compound")
     extra_properties = ("C18",)
     side_props = {"valid-deref": ("C18",), "bounds": ("C18",)}
     own = True
@@ -134,7 +137,8 @@ class ValidateTraitComplex(CContract):
         if rec[2] == "error":
             return error_method_hook(api, rec, st, k)
         if rec[2] == "slow_validate":
-            return api.python_call(st, "slow_validate", lambda r, s: k(r, s.gset("converted", r)), lambda s: k(NULL, s))
+            return api.python_call(st, "slow_validate", lambda r, s: k(r, s.gset("converted", r)),
+                                   lambda s: k(NULL, s.gset("slow_alternative_failed_with", s.exc)))
         return None
 
     def c_setup(self, cx, ex, ov):
@@ -166,6 +170,13 @@ class ValidateTraitComplex(CContract):
             out.append(("post:rejection-by-every-alternative-is-TraitError", z3.And(ret == NULL, st.exc == EXC["TraitError"])))
             out.append(("post:the-value-is-rejected-only-after-every-alternative-was-tried", z3.BoolVal(not st.ghost.get("early_error")),
                         dict(note="an alternative that does not accept must leave the decision to the ones after it")))
+        sf = st.ghost.get("slow_alternative_failed_with")
+        if sf is not None:
+            # the Python-validated ('slow') alternatives are alternatives like the others: their TraitError means 'not this one',
+            # and the decision passes to the alternatives after them (a nested compound puts a slow entry in the MIDDLE of the table)
+            out.append(("post:a-TraitError-of-the-slow-alternative-is-not-the-compound's-answer", z3.Implies(
+                z3.And(ret == NULL, sf == EXC["TraitError"]), z3.BoolVal(any(r[0] == "trait-error" for r in st.trace))),
+                dict(note="only the final handler.error, after every alternative, may reject")))
         return out + own_neutral(st, info, ret)
 
     def covers(self, cx, ov, info):
